@@ -12,7 +12,7 @@ Verdict(r) ==
     LET per == [nm \in Names(r.events) |->
                   LET q == OfName(r.events, nm)
                       mx == IF q[1].kind = "ping" THEN MaxErrPing ELSE MaxErrInf
-                  IN [n |-> Len(q), miss |-> Misses(q, mx), tail |-> TailMiss(q, mx, r.end),
+                  IN [n |-> Len(q), miss |-> Misses(q, mx), tail |-> TailMiss(q, mx, r.end), stall |-> Stalls(q, r.end),
                       late |-> Late(q, r.ping, 25), early |-> Early(q, r.ping, 25)]]
         idx == 1..Len(r.events)
     IN [id |-> r.id, errors |-> r.errors,
@@ -23,6 +23,10 @@ Verdict(r) ==
         absent |-> ToSet(r.expect) \ Names(r.events),
         tail   |-> {nm \in Names(r.events) : per[nm].tail},
         misses |-> {<<nm, i>> \in Names(r.events) \X idx : i \in per[nm].miss},
+        stalls |-> {<<nm, i>> \in Names(r.events) \X idx : i \in per[nm].stall},
+        bursts |-> [nm \in Names(r.events) |->
+                      LET q == OfName(r.events, nm)
+                      IN {k \in 1..Len(q) : \E i \in 1..(Len(q) - k + 1) : \A j \in i..(i + k - 1) : ~q[j].ok}],
         late   |-> {<<nm, i>> \in Names(r.events) \X idx : i \in per[nm].late},
         early  |-> {<<nm, i>> \in Names(r.events) \X idx : i \in per[nm].early}]
 
